@@ -405,3 +405,73 @@ Proof.
   unfold expand_step. cbn [lookup_local current_locals rev assoc app]. rewrite H.
   unfold expand_defn. cbn [existsb fst aid_eqb]. rewrite N.eqb_refl. reflexivity.
 Qed.
+
+(* ------------------------------------------------------------------ recursion errors name aliases of the map *)
+
+Section RecursionSound.
+  Context (am : aliases) (outer : locals).
+
+  Lemma map_res_err : forall {A B} (f : A -> res B) l er,
+    map_res f l = Err er -> exists x, In x l /\ f x = Err er.
+  Proof.
+    intros A B f l er. induction l as [|x l IH]; cbn [map_res]; [discriminate|].
+    destruct (f x) as [y|e|] eqn:Hx; cbn [bind]; try discriminate.
+    - destruct (map_res f l) as [ys|e|] eqn:Hl; cbn [bind]; try discriminate.
+      intros H. injection H as ->. destruct (IH eq_refl) as (z & Hz & Hfz).
+      exists z. split; [right; exact Hz | exact Hfz].
+    - intros H. injection H as ->. exists x. split; [left; reflexivity | exact Hx].
+  Qed.
+
+  (** A reported recursion always names an alias that exists in the map. *)
+  Lemma recursive_error_names_alias : forall fuel st e id,
+    expand am outer fuel st e = Err (ErrRecursive id) -> In id (all_ids am).
+  Proof.
+    induction fuel as [|f IH]; intros st e id H; [discriminate|].
+    assert (Hdefn : forall id0 d l,
+              In id0 (all_ids am) ->
+              expand_defn (expand am outer f) st id0 d l = Err (ErrRecursive id) ->
+              In id (all_ids am)).
+    { intros id0 d l Hid0 H0. unfold expand_defn in H0.
+      destruct (existsb (fun s => aid_eqb (fst s) id0) st).
+      - injection H0 as <-. exact Hid0.
+      - destruct d as [body|]; [|discriminate].
+        destruct (expand am outer f ((id0, l) :: st) body) as [b|er|] eqn:Hb; cbn [bind] in H0;
+          try discriminate.
+        injection H0 as ->. eapply IH. exact Hb. }
+    assert (Hmap : forall l, map_res (expand am outer f st) l = Err (ErrRecursive id) ->
+                             In id (all_ids am)).
+    { intros l Hm. apply map_res_err in Hm. destruct Hm as (x & _ & Hx). eapply IH. exact Hx. }
+    cbn [expand] in H. destruct e as [n| |args|n v|n args kw|id1 b]; unfold expand_step in H.
+    - destruct (lookup_local n (current_locals outer st)); [discriminate|].
+      destruct (assoc n (am_symbols am)) as [d|] eqn:Hs; [|discriminate].
+      eapply Hdefn; [exact (proj1 (symbol_facts am _ _ Hs)) | exact H].
+    - discriminate.
+    - destruct (map_res (expand am outer f st) args) as [a|er|] eqn:Ha; cbn [bind] in H;
+        try discriminate.
+      injection H as ->. apply (Hmap args). exact Ha.
+    - destruct (assoc n (am_patterns am)) as [[p d]|] eqn:Hp.
+      + destruct (expand am outer f st v) as [arg|er|] eqn:Hv; cbn [bind] in H; try discriminate.
+        * eapply Hdefn; [exact (proj1 (pattern_facts am _ _ _ Hp)) | exact H].
+        * injection H as ->. eapply IH. exact Hv.
+      + destruct (expand am outer f st v) as [arg|er|] eqn:Hv; cbn [bind] in H; try discriminate.
+        injection H as ->. eapply IH. exact Hv.
+    - destruct (assoc n (am_functions am)) as [ovs|] eqn:Hf.
+      + destruct kw; [|discriminate].
+        destruct (find_by_arity ovs (length args)) as [[ps d]|] eqn:Hfa; [|discriminate].
+        destruct (map_res (expand am outer f st) args) as [a|er|] eqn:Ha; cbn [bind] in H;
+          try discriminate.
+        * eapply Hdefn; [exact (proj1 (function_facts am _ _ _ _ _ Hf Hfa)) | exact H].
+        * injection H as ->. apply (Hmap args). exact Ha.
+      + destruct (map_res (expand am outer f st) args) as [a|er|] eqn:Ha; cbn [bind] in H;
+          try discriminate.
+        * destruct (map_res (fun p => bind (expand am outer f st (snd p)) (fun v => Ok (fst p, v))) kw)
+            as [k|er|] eqn:Hk; cbn [bind] in H; try discriminate.
+          injection H as ->. apply map_res_err in Hk. destruct Hk as ([kn x] & _ & Hx).
+          cbn [snd fst] in Hx.
+          destruct (expand am outer f st x) as [w|er|] eqn:Hw; cbn [bind] in Hx; try discriminate.
+          injection Hx as ->. eapply IH. exact Hw.
+        * injection H as ->. apply (Hmap args). exact Ha.
+    - destruct (expand am outer f st b) as [b'|er|] eqn:Hb; cbn [bind] in H; try discriminate.
+      injection H as ->. eapply IH. exact Hb.
+  Qed.
+End RecursionSound.
